@@ -177,6 +177,7 @@ def _node(pos, mi, kind, vi):
 
 
 QUICK = [("list", 1), ("list", 7), ("mx4", 1), ("mx5", 2), ("strict", 0), ("iso", 1), ("docmarks", 0)]
+THOROUGH_AROUND = {("list", 1): 4, ("list", 4): 3, ("strict", 0): 3, ("iso", 1): 3, ("docmarks", 0): 2, ("table", 0): 3, ("fixed", 0): 2, ("title", 0): 2}
 QUICK_AROUND = {("list", 1): 3, ("strict", 0): 1, ("iso", 1): 1, ("docmarks", 0): 2}
 
 
@@ -186,7 +187,8 @@ def obligations(tier, seed):
     if tier == "quick":
         parts = [{"schema": s, "doc": i} for (s, i) in QUICK]
     else:
-        parts = common.doc_partitions(list(common.templates.DOCS.keys()), tier)
+        parts = [{"schema": s, "doc": i} for (s, i) in QUICK + [("list", 4), ("list", 11), ("table", 0), ("fixed", 0), ("title", 0),
+                                                                  ("basic", 1), ("docmarks", 1), ("mx1", 1), ("mx2", 3), ("mx3", 1), ("mx6", 3), ("ni", 0)]]
     for p in parts:
         tag = "%s#%d" % (p["schema"], p["doc"])
         size = common.templates.doc(p["schema"], p["doc"]).content.size
@@ -209,7 +211,8 @@ def obligations(tier, seed):
         for i, t in enumerate(C_.tok):
             if t[0] == "open":
                 spans.append((i, C_.pm.match[i] + 1))
-        spans = spans[: (QUICK_AROUND.get((p["schema"], p["doc"]), 0) if tier == "quick" else 12)]
+        spans = spans[: (QUICK_AROUND.get((p["schema"], p["doc"]), 0) if tier == "quick" else
+                         THOROUGH_AROUND.get((p["schema"], p["doc"]), 0))]
         nras = len(ops.payloads(C_).ras)
         rlist = p.get("ras", list(range(nras)))
         for (o, c) in spans:
